@@ -267,27 +267,43 @@ def check_subscriptions(got, expected, what):
     got = list(got)
     if sorted(id(g) for g in got) != sorted(id(e['val']) for e in expected):
         return '%s: multiset differs: got %r expected %r' % (what, got, [e['val'] for e in expected])
-    # map result positions to expected entries (identical values may repeat: greedy by order)
-    remaining = list(expected)
-    placed = []
-    for g in got:
-        cands = [e for e in remaining if e['val'] is g]
-        # prefer the entry that must come first (highest rank = base registries first; then seq)
-        cands.sort(key=lambda e: (-e['rank'], [-p for p in e['pos']], e['seq']))
-        e = cands[0]
-        remaining.remove(e)
-        placed.append(e)
-    for i in range(len(placed)):
-        for j in range(i + 1, len(placed)):
-            a, b = placed[i], placed[j]   # a precedes b in the result
-            if a['rank'] < b['rank']:
-                return '%s: subscriber of a derived registry precedes one of a base registry: %r' % (what, got)
-            if a['rank'] == b['rank']:
-                if a['pos'] != b['pos'] and all(x <= y for x, y in zip(a['pos'], b['pos'])):
-                    # a is component-wise more specific (earlier in sro) than b, yet precedes it
-                    return '%s: more specific required precedes less specific: %r' % (what, got)
-                if a['key'] == b['key'] and a['seq'] > b['seq']:
-                    return '%s: identical keys out of subscription order: %r' % (what, got)
+    # The same object may be subscribed under several keys: the result only has to admit *some* assignment of its
+    # positions to the live subscriptions that respects the three precedence relations (a greedy assignment produced
+    # a false alarm in the thorough tier: a under P0 and a, b under P1(P0) answered [a, b, a] for P0, which is right).
+    def violates(a, b):
+        """a precedes b in the result: is that forbidden?"""
+        if a['rank'] < b['rank']:
+            return 'subscriber of a derived registry precedes one of a base registry'
+        if a['rank'] == b['rank']:
+            if a['pos'] != b['pos'] and all(x <= y for x, y in zip(a['pos'], b['pos'])):
+                return 'more specific required precedes less specific'
+            if a['key'] == b['key'] and a['seq'] > b['seq']:
+                return 'identical keys out of subscription order'
+        return None
+
+    reasons = []
+
+    def search(k, placed, remaining):
+        if k == len(got):
+            return True
+        for e in [e for e in remaining if e['val'] is got[k]]:
+            bad = None
+            for p in placed:
+                bad = violates(p, e)
+                if bad:
+                    break
+            if bad:
+                if len(reasons) < 3:
+                    reasons.append(bad)
+                continue
+            rest = list(remaining)
+            rest.remove(e)
+            if search(k + 1, placed + [e], rest):
+                return True
+        return False
+
+    if not search(0, [], list(expected)):
+        return '%s: %s: %r' % (what, reasons[0] if reasons else 'no admissible assignment', got)
     return None
 
 
